@@ -242,7 +242,7 @@ define_ops! {
 }
 
 dispatch_widths!(dispatch, call, Op;
-    0, 1, 2, 3, 4, 5, 6, 7, 8, 9, 10, 63, 64, 65, 67, 127, 128, 129, 192, 193, 250, 255, 256, 257, 1100, 1216, 2100);
+    0, 1, 2, 3, 4, 5, 6, 7, 8, 9, 10, 63, 64, 65, 67, 127, 128, 129, 192, 193, 250, 255, 256, 257, 1100, 1216, 2100, 4160);
 
 fn u(v: &BigUint, bits: usize) -> V {
     V::U(to_limbs(v, bits))
@@ -695,7 +695,7 @@ fn c04(r: &Runner) {
         run_closure(r, bits, Some(if r.is_thorough() { 3 } else { 2 }));
     }
     // ---- part 2
-    let ws: Vec<usize> = if r.is_thorough() { WIDTHS.to_vec() } else { vec![0, 1, 2, 3, 4, 5, 6, 7, 8, 63, 64, 65, 127, 128, 129, 192, 256, 257, 1100, 1216, 2100] };
+    let ws: Vec<usize> = if r.is_thorough() { WIDTHS.to_vec() } else { vec![0, 1, 2, 3, 4, 5, 6, 7, 8, 63, 64, 65, 127, 128, 129, 192, 256, 257, 1100, 1216, 2100, 4160] };
     for &bits in &ws {
         let (uv, d) = if bits <= 10 { (small_all(bits), format!("S({bits})")) } else { pick(bits, if r.is_thorough() { 2500 } else { 700 }, &salt(r.seed)) };
         let mp = pow2(bits);
